@@ -1660,6 +1660,15 @@ def fromfile(path, dtype=None):
 def frombuffer(buf, dtype=None):
     if isinstance(buf, BytesToken):
         dt = _dt(dtype)
+        if dt != buf.dtype and dt == buf.dtype.newbyteorder() and dt.itemsize > 1:
+            # same bytes read in the other byte order: byte-swapped values, modelled as unconstrained
+            # elements of the requested dtype (any claim about them is confirmed by the replay)
+            from . import core as _core
+            eng = _core._ENG
+            flat = buf.arr.ravel()
+            vals = [eng.real('bswap%d' % i) if dt.kind == 'f' else eng.int('bswap%d' % i)
+                    for i in range(flat.size)]
+            return ndarray(_fromlist([_strip(v) for v in vals], (flat.size,)), dt)
         if dt != buf.dtype:
             raise Inconclusive('frombuffer with a different dtype')
         return buf.arr.ravel().copy()
